@@ -1,0 +1,26 @@
+//go:build verif
+
+package discov
+
+// Contracts for the deductive verifier in /verif (govc). Comment-only file: adds no code.
+
+// doRemoveKey: the key leaves the mapping and EVERY occurrence of it leaves its value's key list (in-place filter).
+//@ func (*container).doRemoveKey
+//@   prop C15
+//@   requires c != nil && c.mapping != nil && c.values != nil
+//@   loop 1 invariant -1 <= rangeindex && len(remain) <= rangeindex + 1 && remain.arr == keys.arr && remain.off == keys.off && remain.cap == keys.cap && rangeindex <= len(keys)
+//@   loop 1 iteration-ensures [filter] (at_head(keys[rangeindex + 1]) != key) == (len(remain) == at_head(len(remain)) + 1) && (at_head(keys[rangeindex + 1]) == key) == (len(remain) == at_head(len(remain)))
+//@   loop 1 iteration-ensures [kept-in-order] at_head(keys[rangeindex + 1]) != key ==> remain[at_head(len(remain))] == at_head(keys[rangeindex + 1])
+//@   ensures [unmapped] !has(c.mapping, key)
+//@   ensures [unknown-key-noop] !old(has(c.mapping, key)) ==> forallk(s, string, has(c.values, s) == old(has(c.values, s)))
+
+// addKv: the key maps to the value and is listed under it; in exclusive mode earlier keys of the value are removed first.
+//@ func (*container).addKv
+//@   prop C15
+//@   opaque doRemoveKey, Set
+//@   requires c != nil && c.mapping != nil && c.values != nil
+//@   ensures [mapped] has(c.mapping, key) && c.mapping[key] == val
+//@   ensures [listed] has(c.values, val) && len(c.values[val]) >= 1 && c.values[val][len(c.values[val]) - 1] == key
+//@   loop 1 invariant -1 <= rangeindex && rangeindex <= len(keys)
+//@   loop 1 iteration-ensures [exclusive-evicts-each] calls(c.doRemoveKey, at_head(keys[rangeindex + 1])) == 1
+//@   ensures [shared-keeps] !c.exclusive ==> calls(doRemoveKey) == 0
